@@ -306,9 +306,17 @@ class FakeResponse:
 def make_sim_get(script):
     """script: {"latency_us": int|None, "kind": ..., ...}"""
 
+    scripts = [script] + list(script.get("then") or [])
+    calls = [0]
+
     def sim_get(url, *args, **kwargs):
         import requests
 
+        # one behaviour per call (a client that retries meets the next one); the last behaviour repeats
+        script = scripts[min(calls[0], len(scripts) - 1)]
+        calls[0] += 1
+        if calls[0] > 1:
+            SCHED.cs.extra["net_calls"] = calls[0]
         SCHED.yield_point("net-enter")
         SCHED.block_net(script.get("latency_us"))
         SCHED.cs.extra["net_delivered_at"] = SCHED.now()
